@@ -598,6 +598,22 @@ def fam_plain(rng, idx):
     return b.finish("plain", idx, top)
 
 
+def witness_f322():
+    """Witness of finding F322: `leaf f20 { type int32; } container c14 { presence; when "../f20 != '2147483646'"; must "/c14/f11 != 'B'";
+    leaf f11 { type string; default "10"; } }` with the instance [`c14`] (no `f20`: the when is false).  Under LYD_VALIDATE_OPERATIONAL the
+    false when is only a warning and the node stays, without LYD_WHEN_TRUE; libyang without fixes/F322.diff then aborts the must with
+    "depends on a node with a when condition, which has not been evaluated".  Returns (schema, forest)."""
+    f20 = SNode("leaf", "f20", ty=Ty("int32"))
+    f11 = SNode("leaf", "f11", ty=Ty("string"), dflt=b"10")
+    c14 = SNode("container", "c14", presence=True, kids=[f11])
+    c14.when = "../f20 != '2147483646'"
+    c14.musts = ["/c14/f11 != 'B'"]
+    s = XSchema("vf322", [f20, c14])
+    s.xp = True
+    s.family = "f322-witness"
+    return s, [DN(c14)]
+
+
 def witness_f321():
     """Witness of finding F321: `choice ch { case a { container n { leaf x; } } case b { leaf y; } }` with the instance [empty `n`
     (created by the client: lyd_new_inner, `<n/>`), `y`].  A non-presence container without children has no meaning of its own
@@ -1082,7 +1098,14 @@ def make_leafref(leaf, tgt, text, route):
     import copy
     leaf.ty = copy.deepcopy(tgt.ty)
     leaf.dflt = None
+    leaf.dflts = []
     leaf.lref, leaf.lref_target, leaf.lref_route = text, tgt, route
+
+
+# sub-families of the XPath family (switch off here when one exposes an open disagreement)
+XP_LEAFLIST_LREF = True      # leaf-list of type leafref
+XP_LREF_CHAIN = True         # leafref whose target is itself a leafref
+XP_WHEN_CHOICE = True        # when on a choice / case (context node: the data parent)
 
 
 def has_implicit(n):
@@ -1093,7 +1116,27 @@ def has_implicit(n):
         return bool(n.dflts)
     if n.np_cont():
         return any(has_implicit(k) or (k.kind in ("choice", "case") and any(has_implicit(x) for x in k.data_kids())) for k in n.kids)
+    if n.kind == "choice":
+        return bool(n.dflt) and any(has_implicit(x) for c in n.kids if c.name == n.dflt for x in c.data_kids())
+    if n.kind == "case":
+        return n.parent.dflt == n.name and any(has_implicit(x) for x in n.data_kids())
     return False
+
+
+def ancestors(n):
+    out, p = [], n.parent
+    while p is not None:
+        out.append(p)
+        p = p.parent
+    return out
+
+
+def descendants(n):
+    out = []
+    for k in n.kids:
+        out.append(k)
+        out += descendants(k)
+    return out
 
 
 def decorate_xpath(rng, s, nmust=2, nlref=1, nwhen=0):
@@ -1106,11 +1149,18 @@ def decorate_xpath(rng, s, nmust=2, nlref=1, nwhen=0):
     # (not a mandatory leaf: without any target instance the repair step of the instance generator could only leave it dangling)
     plain = lambda n: (n.kind == "leaf" and not n.iskey and not n.mandatory and id(n) not in uniq and id(n) not in used
                        and not getattr(n, "lref", None) and not getattr(n, "when", None))
+    plain_ll = lambda n: (XP_LEAFLIST_LREF and n.kind == "leaflist" and not n.dflts and not n.min and id(n) not in used
+                          and not getattr(n, "lref", None) and not getattr(n, "when", None))
     for _ in range(nlref):
         srcs = [n for n in s.nodes if plain(n)]
         rng.shuffle(srcs)
+        lls = [n for n in s.nodes if plain_ll(n)]
+        if lls and rng.random() < 0.35:
+            srcs.insert(0, rng.choice(lls))
+        chain = XP_LREF_CHAIN and rng.random() < 0.35
         for src in srcs:
-            tgts = [n for n in s.nodes if n.kind == "leaf" and n is not src and n.ty.name != "empty" and not getattr(n, "lref", None)
+            tgts = [n for n in s.nodes if n.kind == "leaf" and n is not src and n.ty.name != "empty"
+                    and (not getattr(n, "lref", None) or (chain and n.lref_route[2] is None))
                     and (n.config or not src.config) and not getattr(n, "when", None) and rel_route(src, n)[0] >= 1
                     and not any(getattr(a, "when", None) for a in data_chain(n))]
             # prefer keys and leaves of lists (the classic use), then any leaf
@@ -1118,10 +1168,14 @@ def decorate_xpath(rng, s, nmust=2, nlref=1, nwhen=0):
             if not tgts:
                 continue
             tgt = rng.choice(pref) if pref and rng.random() < 0.8 else rng.choice(tgts)
+            chained = [n for n in tgts if getattr(n, "lref", None)]
+            if chained and chain:
+                tgt = rng.choice(chained)
             used.add(id(tgt))
             kref = None
             par = tgt.data_parent()
-            if not tgt.iskey and par is not None and par.kind == "list" and len(par.keys) == 1 and par not in data_chain(src) and rng.random() < 0.75:
+            if (src.kind == "leaf" and not getattr(tgt, "lref", None) and not tgt.iskey and par is not None and par.kind == "list"
+                    and len(par.keys) == 1 and par not in data_chain(src) and rng.random() < 0.75):
                 # a sibling of src becomes a leafref to the key, src selects the entry through it
                 cand = [n for n in s.data_kids(src.data_parent()) if n is not src and plain(n) and n.config == src.config and n is not tgt]
                 if cand:
@@ -1166,9 +1220,27 @@ def decorate_xpath(rng, s, nmust=2, nlref=1, nwhen=0):
                 and id(n) not in used]
         # carriers that validation creates by itself: leaf with a default, leaf-list with defaults, non-presence container with default
         # descendants -> created with LYD_WHEN_TRUE while the condition holds, created and auto-deleted while it does not
+        under_when = lambda n: any(getattr(a, "when", None) for a in ancestors(n))
+        cand = [n for n in cand if not under_when(n)]
         dfl = [n for n in cand if has_implicit(n)]
         if dfl and rng.random() < 0.6:
             cand = dfl
+        # on a choice / a case: the condition is inherited by the data nodes of the case(s), context node = the data parent
+        cc = [n for n in s.nodes if n.kind in ("choice", "case") and not getattr(n, "when", None) and not under_when(n)
+              and not (n.kind == "choice" and n.mandatory)
+              and not any(getattr(d, "when", None) or getattr(d, "lref", None) or id(d) in used or id(d) in uniq or d.iskey
+                          for d in descendants(n))]
+        if XP_WHEN_CHOICE and cc and rng.random() < 0.4:
+            ctx = rng.choice(cc)
+            sib = [k for k in s.data_kids(ctx.data_parent()) if not tg.TreeGen.under(k, ctx if ctx.kind == "choice" else ctx.parent)
+                   and k.kind == "leaf" and k.ty.name != "empty" and safe_literals(k) and (k.config or not ctx.config)
+                   and not getattr(k, "when", None)]
+            if sib:
+                k = rng.choice(sib)
+                v = rng.choice(safe_literals(k))
+                ctx.when = "%s %s '%s'" % (k.name, rng.choice(["=", "!="]), v)
+                ctx.when_deps = [(k, v)]
+                continue
         if cand:
             ctx = rng.choice(cand)
             # the context node of a when is the node itself (may not exist): look at siblings / ancestors only
@@ -1191,7 +1263,10 @@ def fam_xpath(rng, idx, nwhen=0):
     lv, lw = sl(), b.leaf(dflt=rng.random() < 0.4, noempty=True)
     l1 = b.lst(b.mixed([lv, lw]), hi=rng.choice([0, 0, 4]))
     inner = b.np(b.mixed([sl(), b.leaf(dflt=rng.random() < 0.5, noempty=True), sl()]))
-    ckids = [sl(), sl(), b.leaf(dflt=True), b.ll(ndflt=rng.choice([0, 0, 1, 2])), l1, inner, sl()] + ([b.leaf(mand=True)] if rng.random() < 0.3 else [])
+    ca = b.case(b.mixed([sl(), b.leaf(dflt=rng.random() < 0.6, noempty=True)]))
+    cb = b.case([sl()] + ([b.ll(ndflt=1)] if rng.random() < 0.4 else []))
+    ch = b.choice(b.mixed([ca, cb]), dflt=rng.choice([None, ca, ca, cb]))
+    ckids = [sl(), sl(), b.leaf(dflt=True), b.ll(ndflt=rng.choice([0, 0, 1, 2])), b.ll(), l1, inner, sl(), ch] + ([b.leaf(mand=True)] if rng.random() < 0.3 else [])
     c = (b.pc if rng.random() < 0.6 else b.np)(b.mixed(ckids))
     top = [c, b.lst(b.mixed([sl(), sl(), sl()])), sl()]
     s = b.finish("xpath", idx, b.mixed(top))
@@ -1335,16 +1410,43 @@ class XTreeGen(tg.TreeGen):
                 walk(k)
         for n in forest:
             walk(n)
-        # plain ones first (the key references of the predicates among them), then the ones with a predicate
-        for x in sorted(refs, key=lambda x: x.sn.lref_route[2] is not None):
+        def depth(sn):
+            return 1 + (depth(sn.lref_target) if getattr(sn.lref_target, "lref", None) else 0)
+        # plain ones first (the key references of the predicates among them; the targets of chains before their sources), then the ones
+        # with a predicate
+        gone = set()
+        for x in sorted(refs, key=lambda x: (x.sn.lref_route[2] is not None, depth(x.sn))):
+            if id(x) in gone:
+                continue
             pred = x.sn.lref_route[2]
             sibs = forest if par[id(x)] is None else par[id(x)].kids
+            if x.sn.kind == "leaflist":
+                # all instances of the leaf-list at once: distinct values of existing targets, the surplus goes
+                mine = [y for y in sibs if y.sn is x.sn]
+                vals = []
+                for t_ in self.lref_resolve(forest, par, x):
+                    if t_.val not in vals and id(t_) not in gone:
+                        vals.append(t_.val)
+                self.rng.shuffle(vals)
+                for y, v in zip(mine, vals):
+                    y.val = v
+                for y in mine[len(vals):]:
+                    sibs.remove(y)
+                gone.update(id(y) for y in mine)
+                p_ = par[id(x)]
+                if p_ is not None and p_.sn.kind == "list":
+                    nk = len(p_.sn.keys)
+                    p_.kids[:] = p_.kids[:nk] + tg.canon(p_.kids[nk:])
+                else:
+                    tg.canon(sibs)
+                continue
             if pred is None:
-                tg_ = self.lref_resolve(forest, par, x)
+                tg_ = [t_ for t_ in self.lref_resolve(forest, par, x) if id(t_) not in gone]
                 if tg_:
                     x.val = self.rng.choice(tg_).val
                 elif not x.sn.mandatory:
                     sibs.remove(x)
+                    gone.add(id(x))
                 continue
             ents = {}
             for t_ in self.lref_resolve(forest, par, x, use_pred=False):
@@ -1783,6 +1885,12 @@ class Mutator:
         car = [n for n in self.s.nodes if getattr(n, "when", None) and has_implicit(n)]
         done = []
         for n in car:
+            if n.kind in ("choice", "case"):
+                for p, sk, sibs in levels(self.s, f):
+                    for x in [x for x in sibs if tg.TreeGen.under(x.sn, n)]:
+                        sibs.remove(x)
+                        done.append(n.sid)
+                continue
             for p, sibs, x in self._instances(f, n):
                 if x in sibs:
                     sibs.remove(x)
@@ -1825,6 +1933,8 @@ class Mutator:
             free = [v for v in tgt.ty.pool(tgt.iskey) if v not in have]
             if free and self.rng.random() < 0.6:
                 x.val = self.rng.choice(free)
+                if x.sn.kind == "leaflist":
+                    self._recanon(p, sibs)
                 return {"sid": x.sn.sid, "how": "dangling-value"}
             same = [(tp, ts, t) for tp, ts, t in tinst if t.val == x.val]
             if not same:
